@@ -1239,6 +1239,155 @@ theorem mid_eq_map (cfg : Cfg) (h1 : cfg.docattr = false) (h2 : cfg.reflow = fal
   simp [mid, onlyIf, h1, h2]
 
 
+/-! ## `use_field_init_shorthand`: the precise invariant of `ruleFis` -/
+
+/-- drop an identifier that repeats the token before it (`prev`: that token) -/
+def squash : Tok → List Tok → List Tok
+  | _, [] => []
+  | p, t :: ts => if t.cls == ['i'] && t == p then squash p ts else t :: squash t ts
+
+def FramePlain (fr : Frame) : Prop := fr.close = none ∧ fr.commaAfter = false ∧ fr.skipComma = false
+
+/-- `ruleFis` fires on the current token (it does not look at `enc` / `lo`) -/
+def fisDrops (p2 p1 t : Tok) (rest : List Tok) : Bool := (ruleFis 0 noTok p2 p1 t rest).isSome
+
+theorem ruleFis_indep (enc : Nat) (lo p2 p1 t : Tok) (rest : List Tok) :
+    ruleFis enc lo p2 p1 t rest = ruleFis 0 noTok p2 p1 t rest := rfl
+
+theorem ruleFis_some {p2 p1 t : Tok} {rest : List Tok} {a : Act} (h : ruleFis 0 noTok p2 p1 t rest = some a) :
+    a = { out := [] } ∧ (t.isP ':' = true ∨ (t.cls = ['i'] ∧ p1.isP ':' = true ∧ p2 = t)) := by
+  unfold ruleFis at h
+  rule_cases h
+  all_goals (simp only [drop_, Option.some.injEq] at h; subst h; refine ⟨rfl, ?_⟩; simp_all)
+
+theorem ruleFis_delim {p2 p1 t : Tok} {rest : List Tok} (h : t.isOpen = true ∨ t.isClose = true) :
+    ruleFis 0 noTok p2 p1 t rest = none := by
+  cases hr : ruleFis 0 noTok p2 p1 t rest with
+  | none => rfl
+  | some a =>
+    obtain ⟨_, h2⟩ := ruleFis_some hr
+    obtain ⟨cls, text⟩ := t
+    simp only [Tok.isOpen, Tok.isClose, Tok.isP, beq_iff_eq, Bool.and_eq_true] at h h2
+    rcases h with h | h <;> rcases h2 with h2 | h2 <;> simp_all
+
+theorem bpass_fis_step (p2 p1 lo t : Tok) (st : List Frame) (ts : List Tok) (hst : ∀ fr ∈ st, FramePlain fr) :
+    ∃ lo' st', (∀ fr ∈ st', FramePlain fr) ∧
+      bpass ruleFis p2 p1 lo false st (t :: ts) =
+        (if fisDrops p2 p1 t ts then [] else [t]) ++ bpass ruleFis p1 t lo' false st' ts := by
+  conv => enter [1, lo', 1, st', 2, 1]; unfold bpass
+  simp only [Bool.false_and, Bool.false_eq_true, if_false]
+  by_cases ho : t.isOpen = true
+  · simp only [ho, if_true, ruleFis_indep, ruleFis_delim (Or.inl ho), fisDrops, Option.isSome_none, Bool.false_eq_true, if_false]
+    refine ⟨t, _ :: st, ?_, rfl⟩
+    intro fr hfr
+    simp only [List.mem_cons] at hfr
+    rcases hfr with rfl | hfr
+    · exact ⟨rfl, rfl, rfl⟩
+    · exact hst fr hfr
+  · simp only [ho, Bool.false_eq_true, if_false]
+    by_cases hc : t.isClose = true
+    · simp only [hc, if_true, fisDrops, ruleFis_delim (Or.inr hc), Option.isSome_none, Bool.false_eq_true, if_false]
+      cases st with
+      | nil => exact ⟨t, [], by simp, rfl⟩
+      | cons fr st' =>
+        obtain ⟨h1, h2, h3⟩ := hst fr (List.mem_cons_self)
+        refine ⟨t, st', fun fr' h => hst fr' (List.mem_cons_of_mem _ h), ?_⟩
+        simp [closeOut, h1, h2, h3, lastOf]
+    · simp only [hc, Bool.false_eq_true, if_false, ruleFis_indep]
+      cases hfd : fisDrops p2 p1 t ts
+      · have hr : ruleFis 0 noTok p2 p1 t ts = none := by
+          unfold fisDrops at hfd
+          cases h : ruleFis 0 noTok p2 p1 t ts with
+          | none => rfl
+          | some a => rw [h] at hfd; cases hfd
+        simp only [hr, Bool.false_eq_true, if_false]
+        exact ⟨t, st, hst, by simp⟩
+      · obtain ⟨a, hr⟩ : ∃ a, ruleFis 0 noTok p2 p1 t ts = some a := by
+          unfold fisDrops at hfd
+          exact Option.isSome_iff_exists.1 hfd
+        obtain ⟨ha, _⟩ := ruleFis_some hr
+        subst ha
+        simp only [hr, if_true]
+        exact ⟨lo, st, hst, by simp [lastOf]⟩
+
+/-- the squash state `q` is the last token outside `S` seen so far, as far as `p1` / `p2` tell -/
+structure FisInv (S : Tok → Bool) (q p2 p1 : Tok) : Prop where
+  left : S p1 = false → q = p1
+  right : S p1 = true → S p2 = false → q = p2
+
+theorem bpass_fis_squash (S : Tok → Bool) (hS : ∀ t : Tok, t.isP ':' = true → S t = true) :
+    ∀ (ts : List Tok) (p2 p1 lo : Tok) (st : List Frame) (q : Tok),
+      (∀ fr ∈ st, FramePlain fr) → FisInv S q p2 p1 →
+      squash q (outside S (bpass ruleFis p2 p1 lo false st ts)) = squash q (outside S ts) := by
+  intro ts
+  induction ts with
+  | nil => intros; simp [bpass]
+  | cons t ts ih =>
+    intro p2 p1 lo st q hst hinv
+    obtain ⟨lo', st', hst', heq⟩ := bpass_fis_step p2 p1 lo t st ts hst
+    rw [heq, outside_append]
+    by_cases hSt : S t = true
+    · -- `t` is filtered on both sides
+      have h1 : outside S (if fisDrops p2 p1 t ts then [] else [t]) = [] := by
+        split <;> simp [outside_cons, hSt]
+      rw [h1, List.nil_append, outside_cons, hSt, if_pos rfl]
+      apply ih _ _ _ _ _ hst'
+      refine ⟨fun h => (by rw [hSt] at h; cases h), fun _ h2 => ?_⟩
+      exact hinv.left h2
+    · have hSt' : S t = false := by simpa using hSt
+      have hinv' : ∀ q', q' = t → FisInv S q' p1 t := fun q' hq => ⟨fun _ => hq, fun h => (by rw [hSt'] at h; cases h)⟩
+      by_cases hd : fisDrops p2 p1 t ts = true
+      · -- the rule drops the identifier `t`: it repeats `p2`, which is the squash state
+        unfold fisDrops at hd
+        cases hr : ruleFis 0 noTok p2 p1 t ts with
+        | none => rw [hr] at hd; cases hd
+        | some a =>
+          obtain ⟨_, h2⟩ := ruleFis_some hr
+          rcases h2 with h2 | ⟨hi, hp1, hp2⟩
+          · rw [hS t h2] at hSt'; cases hSt'
+          · have hq : q = t := by
+              have := hinv.right (hS p1 hp1) (by rw [hp2]; exact hSt')
+              rw [this, hp2]
+            have hdd : fisDrops p2 p1 t ts = true := by unfold fisDrops; rw [hr]; rfl
+            simp only [hdd, if_true, outside_nil, List.nil_append, outside_cons, hSt', Bool.false_eq_true, if_false]
+            have : squash q (t :: outside S ts) = squash q (outside S ts) := by
+              rw [squash]; simp [hi, hq]
+            rw [this]
+            exact ih _ _ _ _ _ hst' (hinv' q hq)
+      · have hd' : fisDrops p2 p1 t ts = false := by simpa using hd
+        simp only [hd', Bool.false_eq_true, if_false, outside_cons, hSt', List.cons_append]
+        rw [squash, squash]
+        by_cases hsq : (t.cls == ['i'] && t == q) = true
+        · simp only [hsq, if_true, outside_nil, List.nil_append]
+          have hq : q = t := by
+            simp only [Bool.and_eq_true, beq_iff_eq] at hsq; exact hsq.2.symm
+          exact ih _ _ _ _ _ hst' (hinv' q hq)
+        · simp only [hsq]
+          simp only [Bool.false_eq_true, if_false, outside_nil, List.nil_append]
+          rw [ih _ _ _ _ _ hst' (hinv' t rfl)]
+
+theorem runRule_fis_squash (S : Tok → Bool) (hS : ∀ t : Tok, t.isP ':' = true → S t = true) (ts : List Tok) :
+    squash noTok (outside S (runRule ruleFis ts)) = squash noTok (outside S ts) := by
+  apply bpass_fis_squash S hS ts noTok noTok noTok [] noTok (by simp)
+  exact ⟨fun _ => rfl, fun _ _ => rfl⟩
+
+
+theorem soft_colon (cfg : Cfg) (t : Tok) (h : t.isP ':' = true) : soft cfg t = true := by
+  unfold soft; simp [h]
+
+/-- `post` with `condense_wildcard_suffixes` off, for both values of `use_field_init_shorthand`: the
+hard tokens are kept up to an identifier that repeats the hard token before it (`a: a` ~ `a`). -/
+theorem post_hards_squash (cfg : Cfg) (hw : cfg.wild = false) (ts : List Tok) :
+    squash noTok (hards cfg (post cfg ts)) = squash noTok (hards cfg ts) := by
+  rw [post_eq, postSoft_hards]
+  simp only [onlyIf, hw, Bool.false_eq_true, if_false]
+  have h3 := tryRule_hards cfg (if cfg.fis = true then runRule ruleFis ts else ts)
+  simp only [onlyIf] at h3
+  rw [h3]
+  split
+  · exact runRule_fis_squash (soft cfg) (soft_colon cfg) ts
+  · rfl
+
 /-! ## a toy lexer for the examples (blank-separated words) -/
 def splitSp : List Char → List Char → List (List Char)
   | [], cur => [cur.reverse]
